@@ -133,9 +133,8 @@ def e2(ctx):
                                           % ", ".join(desc)))
     if n_hdr < 3:
         raise AnalysisError("only %d ETag header sites found (confirmed: 3)" % n_hdr)
-    gp = ctx.own_method(wd + ".GetETagProperty", "get_value")
-    ok = any(isinstance(n, ast.Assign) and dotted(n.targets[0]) == "el.text" and _is_call_to(n.value, {"get_etag"}) and "resource.get_etag" in src(n.value)
-             for n in walk_local(gp.node))
+    from .common import serves_resource_call
+    gp, ok = serves_resource_call(ctx, wd + ".GetETagProperty", "get_etag")
     obs.append(ctx.ob(ok, gp.qualname, gp.where, "getetag is resource.get_etag()", "el.text = await resource.get_etag()",
                       "GetETagProperty no longer serves resource.get_etag()"))
     rd = ctx.own_method(wd + ".Resource", "render")
